@@ -32,6 +32,8 @@ Definition check (c : case) : bool :=
         match c_write c v, impl with
         | Some m, Some i =>
           let s := classify g in
+          (* identical bytes, or (maps are written in iteration order) the same datum in canonical form *)
+          if bytes_eqb m i then true else
           match sd (fuel_for i) s i, sd (fuel_for m) s m with
           | Done di [], Done dm [] =>
               datum_same di dm && (len i =? len m) &&
